@@ -139,6 +139,10 @@ func runProperty(res *Result, prop, tier string, seed uint64, driver, replay str
 		g.maxDepth = 9
 	}
 	var cases []*Case
+	if prop == "C16" {
+		runC16(res)
+		return
+	}
 	switch prop {
 	case "C01", "C02", "C08", "C10":
 		cases = append(cases, pairCases(g)...)
